@@ -63,23 +63,27 @@ type c18Thread struct {
 	slot      *hydra.SwampWaiter
 	cancel    context.CancelFunc
 	cancelled bool
-	sawDel    bool // its Delete of the wait slot has been observed
+	sawDel    bool        // its Delete of the wait slot has been observed
+	got       swamp.Swamp // the instance it left the body with (found or created)
+	ret       swamp.Swamp // what SummonSwamp returned (read after done)
 	done      chan struct{}
 }
 
 type c18World struct {
-	mu        sync.Mutex
-	hy        hydra.Hydra
-	swName    name.Name
-	events    chan c18Event
-	passAll   bool
-	threads   map[int]*c18Thread
-	slots     []*hydra.SwampWaiter
-	insts     []swamp.Swamp // every instance seen in the swamps map, in construction order
-	destroyed map[int]bool
-	news      atomic.Int64
-	closed    atomic.Int64
-	broken    bool
+	mu         sync.Mutex
+	hy         hydra.Hydra
+	swName     name.Name
+	events     chan c18Event
+	passAll    bool
+	nested     map[int]bool // threads whose deferred exit summons again: that second SummonSwamp runs unobserved
+	nestedSeen bool
+	threads    map[int]*c18Thread
+	slots      []*hydra.SwampWaiter
+	insts      []swamp.Swamp // every instance seen in the swamps map, in construction order
+	destroyed  map[int]bool
+	news       atomic.Int64
+	closed     atomic.Int64
+	broken     bool
 }
 
 var c18BrokenCases int
@@ -116,7 +120,21 @@ func (w *c18World) handler(hook string, args ...any) {
 		return
 	}
 	w.mu.Lock()
-	pass := w.passAll
+	pass := w.passAll || w.nested[t]
+	if w.nested[t] {
+		w.nestedSeen = true // the call is inside its second SummonSwamp
+		if s, ok := args[2].(*hydra.SwampWaiter); ok && s != nil {
+			known := false
+			for _, x := range w.slots {
+				if x == s {
+					known = true
+				}
+			}
+			if !known {
+				w.slots = append(w.slots, s) // (read again only after the call has returned)
+			}
+		}
+	}
 	w.mu.Unlock()
 	if pass {
 		return
@@ -415,7 +433,7 @@ func runC18(in *bufio.Scanner, out *bufio.Writer) {
 		if w != nil {
 			w.cleanup()
 		}
-		w = &c18World{hy: rig.Zeus.GetHydra(), events: make(chan c18Event, 64), threads: map[int]*c18Thread{}, destroyed: map[int]bool{},
+		w = &c18World{hy: rig.Zeus.GetHydra(), events: make(chan c18Event, 64), threads: map[int]*c18Thread{}, destroyed: map[int]bool{}, nested: map[int]bool{},
 			swName: name.New().Sanctuary("c18").Realm("case").Swamp(fmt.Sprintf("%s-%d", caseNo, runID))}
 		verifhook.SetHandler(w.handler)
 	}
@@ -544,7 +562,7 @@ func runC18(in *bufio.Scanner, out *bufio.Writer) {
 				th = &c18Thread{n: t, cancel: cancel, done: make(chan struct{})}
 				w.threads[t] = th
 				go func(th *c18Thread) {
-					_, _ = w.hy.SummonSwamp(ctx, 1, w.swName)
+					th.ret, _ = w.hy.SummonSwamp(ctx, 1, w.swName)
 					close(th.done)
 				}(th)
 				if ev, ok := w.next(t, HxScale(3*time.Second)); !ok || ev.name != "looked" {
@@ -579,6 +597,8 @@ func runC18(in *bufio.Scanner, out *bufio.Writer) {
 					res = "found"
 					if th.cancelled {
 						res = "cancelled"
+					} else if s, ok := hydra.VerifMappedSwamp(w.hy, w.swName.Get()); ok {
+						th.got = s
 					}
 					res += tail
 				default:
@@ -592,6 +612,9 @@ func runC18(in *bufio.Scanner, out *bufio.Writer) {
 					res = "unexpected-" + ev.name + tail
 				} else {
 					res = "created" + tail
+					if s, ok := hydra.VerifMappedSwamp(w.hy, w.swName.Get()); ok {
+						th.got = s
+					}
 				}
 			case th.stage == "leave.unready":
 				close(th.rel)
@@ -603,13 +626,32 @@ func runC18(in *bufio.Scanner, out *bufio.Writer) {
 					res = "dec"
 				}
 			case th.stage == "leave.dec":
+				// the end of the deferred exit: an instance that has been closed meanwhile is not handed out — the call
+				// summons again.  That second SummonSwamp is an ordinary entrant; it is let run to its end unobserved,
+				// which needs the wait slot to itself: while another call is under way the step is refused (`busy`).
+				again := th.got != nil && !th.cancelled && th.got.IsClosing()
+				if again {
+					busy := false
+					for _, o := range w.threads {
+						if o != th && o.stage != "" && o.stage != "done" && o.stage != "leave.dec" {
+							busy = true
+						}
+					}
+					if busy {
+						res = "busy"
+						break
+					}
+					w.mu.Lock()
+					w.nested[t] = true
+					w.mu.Unlock()
+				}
 				close(th.rel)
 				th.rel = nil
 				th.stage = "done"
 				res = "kept"
 				select {
 				case <-th.done:
-				case <-time.After(HxScale(3 * time.Second)):
+				case <-time.After(HxScale(10 * time.Second)):
 					w.timeout()
 					res = "unexpected-timeout"
 				}
@@ -625,10 +667,20 @@ func runC18(in *bufio.Scanner, out *bufio.Writer) {
 				if th.sawDel {
 					res = "deleted"
 				}
+				w.mu.Lock()
+				seen := w.nestedSeen
+				w.nestedSeen = false
+				w.mu.Unlock()
+				if seen && !strings.HasPrefix(res, "unexpected") {
+					res += " resummoned"
+				}
+				if !strings.HasPrefix(res, "unexpected") && th.ret != nil && th.ret.IsClosing() {
+					res += " handed-closed" // the caller got an instance that is closing: its writes would never be flushed
+				}
 			default:
 				res = "skip"
 			}
-			if res == "skip" {
+			if res == "skip" || res == "busy" {
 				fmt.Fprintln(out, res)
 			} else {
 				fmt.Fprintf(out, "go %d %s %s\n", t, res, w.state())
